@@ -89,6 +89,12 @@ TARGETS: t.List[t.Tuple[str, t.Any, t.Set[str]]] = [
     ('dataclass[tuple](a: str, b: str)', _CLS_TUPLE, SEQK), ('dataclass[tuple+struct](a: Any, b: Any)', _CLS_TUPLE_ANY, SEQK | MAPK),
     ('dataclass[tuple+struct](a: str, slot: str = field(init=False), n: int)', _CLS_TUPLE_NONINIT, SEQK | MAPK),
     ('dataclass[tuple](slot: str = field(init=False), n: int)', _CLS_TUPLE_NONINIT1, SEQK),
+    # type variables met unsubstituted stand for their bound / the union of their constraints, whatever kind of type the bound is
+    ("TypeVar(bound=Union[int, float])", ('tv', 'bound', ('union', 'Union', (S('int'), S('float')))), {'int', 'float'}),
+    ("TypeVar(bound=Optional[str])", ('tv', 'bound', ('union', 'Optional', (S('str'),))), {'str', 'none'}),
+    ("TypeVar(bound=List[int])", ('tv', 'bound', ('seq', 'List', S('int'))), SEQK),
+    ("TypeVar(bound=int)", ('tv', 'bound', S('int')), {'int'}),
+    ("TypeVar(int, str)", ('tv', 'constrained', (S('int'), S('str'))), {'int', 'str'}),
     ('ValueOrList[int]', ('vol', S('int')), {'int'} | SEQK), ('ndarray[int64]', ('nd', 'int64'), {'int'} | SEQK),
 ]
 LITERAL_TARGETS = {"{'x': int}", '(int,)', '(str, str)'}   # type literals: only at top level or inside other literals
@@ -167,7 +173,8 @@ def check(case: t.Any, ctx: Ctx) -> None:
     nd = tg.node(wspec)
     cross = vkind not in admitted
     numeric_bool = vkind == 'bool' and tname in ('int', 'float', 'complex', 'Decimal', 'Fraction', 'IntE', 'FloatE', 'IE(IntEnum)', 'MyInt', 'MyFloat',
-                                                 "Literal['5', 5, True]", 'ValueOrList[int]', 'ndarray[int64]')
+                                                 "Literal['5', 5, True]", 'ValueOrList[int]', 'ndarray[int64]',
+                                                 'TypeVar(bound=Union[int, float])', 'TypeVar(bound=int)', 'TypeVar(int, str)')
     ctx.label(f"{'cross' if cross else 'same'}-kind:{cname}")
     ctx.nontrivial(cross and cname != 'top')
     if cname == 'dataclass-constructor':
